@@ -900,3 +900,18 @@ Proof.
   split. { intro e. rewrite has_In, K2. reflexivity. }
   unfold nkeys, ekeys. rewrite K1, K2. auto 10.
 Qed.
+
+Lemma remove_edge1_mships_core e s : Inv s ->
+  forall x y, In y (mships (st_of (remove_edge1 e s)) x) <-> y <> e /\ In y (mships s x).
+Proof.
+  intros (W & _) x y. unfold remove_edge1. destruct (get e (h_edge s)) as [ms|] eqn:G.
+  - rewrite st_of_ok, drop_edge_mships.
+    destruct (unlink_views e ms s) as (A & _). cbv zeta in A. rewrite A.
+    assert (Hms : mems s e = ms) by (unfold mems, getl; rewrite G; reflexivity).
+    destruct (mem x ms) eqn:M.
+    + rewrite In_sremove. tauto.
+    + split; [|tauto]. intro H. split; [|exact H]. intro; subst y.
+      apply W in H. rewrite Hms in H. apply mem_In in H. congruence.
+  - rewrite st_of_raise. split; [|tauto]. intro H. split; [|exact H]. intro; subst y.
+    apply W in H. apply get_None in G. apply G. eapply getl_nonempty_key. exact H.
+Qed.
